@@ -13,7 +13,10 @@ RULE = ("a merchant with known discrete logs; channels established honestly and 
         "mismatched old / new revocation lock, token under another key, tampered token) x strategies (a) honest "
         "algorithm, (c) independent commitment scalars, (d) post-challenge choice of the revealed commitment scalars and "
         "of the scalar commitments T (challenge read through the hook), (e) compensating errors in two sub-proofs over the same "
-        "generators (state / close state; two digit proofs) that cancel in the sum or difference of their relations. Non-trivial = every case; distinct = distinct digest.")
+        "generators (state / close state; two digit proofs) that cancel in the sum or difference of their relations, (f) the shown token "
+        "replaced by curve points of order 3 (outside the group) in a proof for an invented old state, responses recomputed for the "
+        "challenge that covers them; (3) proofs of TRUE statements whose response scalars vanish (lock / nonce 0 with commitment scalar "
+        "0, zero blinding factors), which must be accepted; (4) a merchant from merchant::Config::new. Non-trivial = every case; distinct = distinct digest.")
 TRUSTED = ["theorems C02_* over an arbitrary field / hash; correspondence ops: ready_start, m_allow, started_lock, u_complete, "
            "locked_unlock; verifier challenge read through the verif-hooks recorder"]
 ASSUMPTIONS = ["rewinding / random-oracle step from special soundness to 'no efficient prover' - not formalised",
